@@ -165,6 +165,15 @@ def run(ctx, chk):
             chk.ob("C20.signalling", "cbor_serialized_size %s at line %d" % (i.op, i.line), ok, i.loc(), fn=ss.name,
                    key="ss:%s:%d" % (i.op, _ordinal(ss, i)), detail="" if ok else "two sizes are combined with a raw %s" % i.op)
     cache = O.PathCache(prog, eff)
+    # ... and what it returns is a constant, a header size or the result of the signalling add - also when the last step
+    # is delegated to a unit-internal helper (inlined): a raw `size + 1` would turn the overflow signal 0 into 1
+    for k, pa in enumerate(cache.get(ss.name, inline_static=True)):
+        r = pa.ret
+        ok = is_const(r) or (isinstance(r, tuple) and r[0] == "call" and r[1] in ("_cbor_safe_signaling_add", "_cbor_encoded_header_size"))
+        chk.ob("C20.signalling", "cbor_serialized_size path %d returns a constant, a header size or a signalling sum" % k, ok,
+               "%s:%d" % (ss.file, ss.line), fn=ss.name, key="ssret:%d" % k,
+               detail="" if ok else "returns %s: a size combined outside _cbor_safe_signaling_add loses the overflow signal (0)" % DR.fmt_term(r),
+               path=pa.block_lines() if not ok else None)
     sa = prog.fn("_cbor_safe_signaling_add")
     for k, pa in enumerate(cache.get(sa.name)):
         if pa.ret == ("c", 0):
@@ -229,6 +238,26 @@ def _field_of_load(prog, v):
     return None, None
 
 
+_REACH = {}
+
+
+def _reach(prog, name):
+    """functions reachable from `name` through direct calls"""
+    if name not in _REACH:
+        seen, stack = set(), [name]
+        while stack:
+            x = stack.pop()
+            g = prog.funcs.get(x)
+            if g is None:
+                continue
+            for c in g.calls():
+                if c.callee and c.callee not in seen:
+                    seen.add(c.callee)
+                    stack.append(c.callee)
+        _REACH[name] = seen
+    return _REACH[name]
+
+
 def classify_ir(prog, f, i):
     """IR-level idioms; returns (idiom, reason) or None when path facts are needed"""
     a, b = i.operands
@@ -278,6 +307,11 @@ def classify_ir(prog, f, i):
             return ("10-counter", "stack depth + 1 inside the stack module: depth <= CBOR_MAX_STACK_SIZE by the gate (C19.gate) and the single-writer rule")
         if st == "%struct._cbor_map_metadata" and idx == (0, 1) and f.name == "_cbor_map_add_value":
             return ("10-counter", "pair index count - 1 right after a successful key insertion (C12.value-slot)")
+    # 10: recursion depth: parameter + 1 whose only use is as an argument of a recursive call (one native frame per unit)
+    if i.op == "add" and isinstance(a, Arg) and isinstance(b, Const) and b.v == 1:
+        users = list(f.users(i))
+        if users and all(u.op == "call" and u.callee and (u.callee == f.name or f.name in _reach(prog, u.callee)) for u in users):
+            return ("10-counter", "recursion depth + 1, passed only to the recursive call (bounded by the native stack long before 2^64)")
     # 8: window arithmetic in the serializers (shape verified by C07.window)
     if f.name in WINDOW_FUNCS:
         def is_w(v):
